@@ -85,6 +85,11 @@ func NewStream() io.ReadWriteCloser
 // messages, reads block until a message (or Close) arrives.
 func NewPipe() io.ReadWriteCloser
 
+// WriteMistyped writes v's JSON encoding with its "jsonrpc" member replaced by the number 2: a
+// complete, well-formed JSON value that is not a valid message envelope (encoding/json reports a
+// *json.UnmarshalTypeError for it after filling the other members).
+func WriteMistyped(w io.Writer, v interface{})
+
 // KVStorm lets up to n later commits of read-write transactions of the KV model fail with
 // ErrConflict although the path contains no conflicting writer (other requests being served).
 func KVStorm(n int)
